@@ -7,6 +7,7 @@ import (
 	"reflect"
 	"runtime"
 	"sort"
+	"strconv"
 	"strings"
 	"time"
 
@@ -25,6 +26,7 @@ type histReplay struct {
 	Case    *lab.Case    `json:"case"`
 	Steps   []proto.Step `json:"steps"`
 	Mode    proto.Mode   `json:"mode"`
+	Variant string       `json:"variant,omitempty"` // option set of the parser ("" = default options)
 }
 
 var c12Modes = []proto.Mode{
@@ -49,6 +51,8 @@ func obsDiff(a, b *proto.Obs) string {
 	switch {
 	case a.Panic != b.Panic:
 		return fmt.Sprintf("panic %q vs %q", a.Panic, b.Panic)
+	case a.Unstable != b.Unstable:
+		return fmt.Sprintf("%s%s", a.Unstable, b.Unstable)
 	case a.NilRule != b.NilRule:
 		return "entry availability differs"
 	case a.OK != b.OK:
@@ -167,15 +171,20 @@ func effEntry(s proto.Step) int {
 }
 
 type histEval struct {
-	what string
-	mode proto.Mode
-	step int
+	what    string
+	mode    proto.Mode
+	step    int
+	variant string
 }
 
 // evalHistories runs the histories of the cases on long-lived instances in every mode and
 // compares each step with a fresh default instance given that input alone.
-func evalHistories(c *drv.Ctx, cases []*lab.Case, hists [][][]proto.Step, modes []proto.Mode, stats bool) (res [][]*histEval, err error) {
-	l, err := lab.Build(c, cases, []lab.Variant{lab.V0}, lab.Options{AllU: true})
+func evalHistories(c *drv.Ctx, cases []*lab.Case, hists [][][]proto.Step, modes []proto.Mode, stats bool, variant ...string) (res [][]*histEval, err error) {
+	v := lab.V0
+	if len(variant) > 0 && variant[0] != "" {
+		v = variantByName(variant[0])
+	}
+	l, err := lab.Build(c, cases, []lab.Variant{v}, lab.Options{AllU: v.Name == "v0"})
 	if err != nil {
 		return nil, err
 	}
@@ -188,7 +197,7 @@ func evalHistories(c *drv.Ctx, cases []*lab.Case, hists [][][]proto.Step, modes 
 	fresh := map[key]int{}
 	var reqs []proto.Req
 	for ci, cs := range cases {
-		name := fmt.Sprintf("g%dv0", cs.ID)
+		name := fmt.Sprintf("g%d%s", cs.ID, v.Name)
 		if !l.Runnable(name) {
 			continue
 		}
@@ -206,7 +215,7 @@ func evalHistories(c *drv.Ctx, cases []*lab.Case, hists [][][]proto.Step, modes 
 	var hrefs []hr
 	nFresh := len(reqs)
 	for ci, cs := range cases {
-		name := fmt.Sprintf("g%dv0", cs.ID)
+		name := fmt.Sprintf("g%d%s", cs.ID, v.Name)
 		if !l.Runnable(name) {
 			continue
 		}
@@ -364,7 +373,7 @@ func shrinkHist(c *drv.Ctx, prop string, cs *lab.Case, h []proto.Step, ev *histE
 	deadline := time.Now().Add(time.Duration(c.Pick(60, 180)) * time.Second)
 	cc := *cs
 	cc.Hist = nil
-	cur := &histReplay{Case: &cc, Steps: h[:ev.step+1], Mode: ev.mode}
+	cur := &histReplay{Case: &cc, Steps: h[:ev.step+1], Mode: ev.mode, Variant: ev.variant}
 	what := ev.what
 	size := func(r *histReplay) int {
 		n := r.Case.G.Size() * 8
@@ -379,32 +388,32 @@ func shrinkHist(c *drv.Ctx, prop string, cs *lab.Case, h []proto.Step, ev *histE
 		n := len(cur.Steps)
 		for _, k := range []int{1, 2, 3} {
 			if k < n {
-				cands = append(cands, &histReplay{Case: cur.Case, Steps: cur.Steps[n-k:], Mode: cur.Mode})
+				cands = append(cands, &histReplay{Case: cur.Case, Steps: cur.Steps[n-k:], Mode: cur.Mode, Variant: cur.Variant})
 			}
 		}
 		for size := (n - 1) / 2; size >= 2; size /= 2 {
 			for lo := 0; lo+size <= n-1; lo += size {
 				st := append(append([]proto.Step{}, cur.Steps[:lo]...), cur.Steps[lo+size:]...)
-				cands = append(cands, &histReplay{Case: cur.Case, Steps: st, Mode: cur.Mode})
+				cands = append(cands, &histReplay{Case: cur.Case, Steps: st, Mode: cur.Mode, Variant: cur.Variant})
 			}
 		}
 		for i := 0; i+1 < len(cur.Steps) && len(cur.Steps) <= 12; i++ {
 			st := append(append([]proto.Step{}, cur.Steps[:i]...), cur.Steps[i+1:]...)
-			cands = append(cands, &histReplay{Case: cur.Case, Steps: st, Mode: cur.Mode})
+			cands = append(cands, &histReplay{Case: cur.Case, Steps: st, Mode: cur.Mode, Variant: cur.Variant})
 		}
 		// shorten inputs
 		for i, s := range cur.Steps {
 			for _, in := range inputReductions(string(s.Input)) {
 				st := append([]proto.Step{}, cur.Steps...)
 				st[i].Input = proto.QStr(in)
-				cands = append(cands, &histReplay{Case: cur.Case, Steps: st, Mode: cur.Mode})
+				cands = append(cands, &histReplay{Case: cur.Case, Steps: st, Mode: cur.Mode, Variant: cur.Variant})
 				if len(cands) > 40 {
 					break
 				}
 			}
 		}
 		if cur.Mode != (proto.Mode{}) {
-			cands = append(cands, &histReplay{Case: cur.Case, Steps: cur.Steps, Mode: proto.Mode{}})
+			cands = append(cands, &histReplay{Case: cur.Case, Steps: cur.Steps, Mode: proto.Mode{}, Variant: cur.Variant})
 		}
 		// grammar reductions keep every entry used by the history
 		for _, r := range gram.Reductions(cur.Case.G, 0) {
@@ -413,7 +422,7 @@ func shrinkHist(c *drv.Ctx, prop string, cs *lab.Case, h []proto.Step, ev *histE
 			}
 			g2 := *cur.Case
 			g2.G = r.G
-			cands = append(cands, &histReplay{Case: &g2, Steps: cur.Steps, Mode: cur.Mode})
+			cands = append(cands, &histReplay{Case: &g2, Steps: cur.Steps, Mode: cur.Mode, Variant: cur.Variant})
 			if len(cands) > 90 {
 				break
 			}
@@ -443,7 +452,7 @@ func shrinkHist(c *drv.Ctx, prop string, cs *lab.Case, h []proto.Step, ev *histE
 				cs2 = append(cs2, cases[i])
 				hs2 = append(hs2, hists[i])
 			}
-			res, err := evalHistories(c, cs2, hs2, []proto.Mode{m}, false)
+			res, err := evalHistories(c, cs2, hs2, []proto.Mode{m}, false, cur.Variant)
 			if err != nil {
 				break
 			}
@@ -467,7 +476,11 @@ func shrinkHist(c *drv.Ctx, prop string, cs *lab.Case, h []proto.Step, ev *histE
 		}
 		steps = append(steps, st)
 	}
-	desc := fmt.Sprintf("%s\n--- minimal history [%s]: %s ---\n%s", what, modeKey(cur.Mode), strings.Join(steps, "; "), strings.TrimSpace(cur.Case.G.String()))
+	opt := ""
+	if cur.Variant != "" && cur.Variant != "v0" {
+		opt = " options " + strconv.Quote(variantFlags(cur.Variant))
+	}
+	desc := fmt.Sprintf("%s\n--- minimal history [%s]%s: %s ---\n%s", what, modeKey(cur.Mode), opt, strings.Join(steps, "; "), strings.TrimSpace(cur.Case.G.String()))
 	return &drv.Violation{Property: prop, Kind: "lab-hist", What: desc, Case: cur}
 }
 
@@ -478,7 +491,7 @@ func init() {
 			return "", err
 		}
 		r.Case.G.Number()
-		res, err := evalHistories(c, []*lab.Case{r.Case}, [][][]proto.Step{{r.Steps}}, []proto.Mode{r.Mode}, false)
+		res, err := evalHistories(c, []*lab.Case{r.Case}, [][][]proto.Step{{r.Steps}}, []proto.Mode{r.Mode}, false, r.Variant)
 		if err != nil {
 			return "", err
 		}
